@@ -16,8 +16,8 @@ from checks.kern import frac_spec
 _PROJECTS = {}
 
 
-def project(name, T, dt=0.25, pops=1, transfers=0):
-    key = (name, T, dt, pops, transfers)
+def project(name, T, dt=0.25, pops=1, transfers=0, durs=None):
+    key = (name, T, dt, pops, transfers, durs)
     if key not in _PROJECTS:
         import atomica as at
 
@@ -29,6 +29,12 @@ def project(name, T, dt=0.25, pops=1, transfers=0):
                         for dst, ts in par.ts.items():
                             ts.assumption = 0.05
                             ts.units = "probability"
+            if durs:
+                # duration of the timed group differs between the populations (connected by the transfer)
+                for pop, d in zip(P.parsets[0].pop_names, durs):
+                    ts = P.parsets[0].pars["dur"].ts[pop]
+                    ts.assumption = d
+                    ts.t, ts.vals = [], []
         else:
             P = at.demo(name, do_run=False)
             s0 = float(P.settings.sim_start)
@@ -73,10 +79,10 @@ def _rows(comp):
     return comp._vals.shape[0]
 
 
-def step_body(name, T, want, dt=0.25, pops=1, transfers=0, junction_init=False):
+def step_body(name, T, want, dt=0.25, pops=1, transfers=0, junction_init=False, durs=None):
     def body(env):
         am, ap, au, apar, afp = mr.modules()
-        P = project(name, T, dt, pops, transfers)
+        P = project(name, T, dt, pops, transfers, durs)
         F = P.framework
         ps = copy.deepcopy(P.parsets[0])
         nn = lambda v: env.ge(v, 0.0, 0)
@@ -410,6 +416,37 @@ def step_body(name, T, want, dt=0.25, pops=1, transfers=0, junction_init=False):
     return body
 
 
+def wiring_body(name, dur, dt_num, dt_den, T=4):
+    """Concrete structure check on the real built model (no symbolic numbers needed): the step size every variable carries is
+    the settings' step size, and every timed compartment has ceil(D/dt) rows with D/dt evaluated in exact rational arithmetic"""
+
+    def body(env):
+        from fractions import Fraction
+        import math
+
+        am, ap, au, apar, afp = mr.modules()
+        dt = dt_num / dt_den
+        P = gen.make_project(gen.CATALOGUE[name](dur), start=2000.0, end=2000.0 + dt * (T - 1), dt=dt)
+        m = am.Model(P.settings, P.framework, P.parsets[0])
+        exact = Fraction(dur).limit_denominator(10**6) / Fraction(dt_num, dt_den)
+        want_rows = max(1, math.ceil(exact))
+        env.claim("model_step_is_settings_step", env.true(m.dt == P.settings.sim_dt), key="model_dt")
+        ok = True
+        for pop in m.pops:
+            for var in pop.comps + pop.links + pop.pars:
+                if var.dt is not None and var.dt != P.settings.sim_dt:
+                    ok = False
+        env.claim("every_variable_carries_the_settings_step", env.true(ok), key="model_dt")
+        for pop in m.pops:
+            for c in pop.comps:
+                if isinstance(c, am.TimedCompartment):
+                    env.claim("keyring_rows|%s" % c.name, env.true(c._vals.shape[0] == want_rows), key="keyring_rows", meta=dict(rows=int(c._vals.shape[0]), expected=want_rows))
+        k = len(m.t) - 1
+        env.claim("grid_is_start_plus_k_dt", env.true(all(abs(float(m.t[i]) - (2000.0 + i * dt)) <= 1e-9 for i in range(len(m.t)))), key="grid")
+
+    return body
+
+
 STUBS = [
     "numpy/math/sciris/scipy in atomica.model, programs, utils, parameters, function_parser -> vsym shims",
     "merge points as in the kernel groups; Population.initialize_compartments merged; Model.update_links per-parameter loop outlined",
@@ -437,7 +474,7 @@ def specs(prop, tier):
     elif prop == "C04":
         lst = [("M4", 3, dict(junction_init=True)), ("M5", 3, dict(junction_init=True)), ("M5R", 3, dict(junction_init=True)), ("M6", 3, dict(junction_init=True)), ("M8", 4, {}), ("M12", 3, dict(junction_init=True))]
     elif prop == "C05":
-        lst = [("M7", 4, {}), ("M8", 4, {}), ("M7", 4, dict(pops=2, transfers=1))]
+        lst = [("M7", 4, {}), ("M8", 4, {}), ("M7", 4, dict(pops=2, transfers=1)), ("M7", 4, dict(pops=2, transfers=1, durs=(0.5, 0.75))), ("M7", 4, dict(pops=2, transfers=1, durs=(0.75, 0.25)))]
         if not q:
             lst += [("M7", 6, dict(dt=0.125)), ("M8", 5, dict(dt=0.125))]
     else:
@@ -456,8 +493,21 @@ def specs(prop, tier):
     return out
 
 
+WIRING = [("M7", 0.5, 1, 12), ("M7", 0.25, 1, 12), ("M8", 0.5, 1, 52), ("M7", 0.3, 1, 10), ("M7", 2.0, 1, 4), ("M7", 0.02, 1, 12)]
+
+
 def groups(prop, tier):
     gs = []
+    if prop in ("C05", "C03"):
+        for name, dur, a, b in WIRING:
+            nm = "wiring[%s;D=%g;dt=%d/%d]" % (name, dur, a, b)
+            body = wiring_body(name, dur, a, b)
+
+            def gw(tier_, seed, _body=body, _nm=nm):
+                return run_body(_body, _nm, tier_, seed, functions=_funcs(), bounds=dict(kind="concrete structure check of the real Model.__init__/build"), stubs=["none (concrete execution of the real code; exact rational reference for ceil(D/dt))"], timeout_ms=10000, replay_witnesses=False)
+
+            gw.__name__ = nm
+            gs.append(gw)
     for nm, kw in specs(prop, tier):
         body = step_body(want={prop}, **kw)
 
@@ -470,6 +520,9 @@ def groups(prop, tier):
 
 
 def replay(prop, rec):
+    for name, dur, a, b in WIRING:
+        if rec["replay"]["group"] == "wiring[%s;D=%g;dt=%d/%d]" % (name, dur, a, b):
+            return replay_body(wiring_body(name, dur, a, b), rec["model"], rec["replay"]["claim"])
     for nm, kw in specs(prop, "thorough") + specs(prop, "quick"):
         if nm == rec["replay"]["group"]:
             return replay_body(step_body(want={prop}, **kw), rec["model"], rec["replay"]["claim"])
